@@ -816,8 +816,11 @@ func (w *vc20World) genRich(rnd basics.Round, est map[int]uint64) (vc20Group, bo
 	}
 }
 
-// the state-independent checks of TransactionGroup, computed with the real functions
-func (w *vc20World) staticFlags(g vc20Group, spec transactions.SpecialAddresses) (wf, gid, feeok bool) {
+// the state-independent checks of TransactionGroup, computed with the real functions.  memberOK[i]:
+// the group-id checks made inside the per-transaction loop pass for member i (same Group as the
+// first member; non-zero unless the group is a singleton); gid: the completeness check made
+// after the loop (hash of the members' ids = Group).
+func (w *vc20World) staticFlags(g vc20Group, spec transactions.SpecialAddresses) (wf, gid, feeok bool, memberOK []bool) {
 	wf, gid = true, true
 	stxs := make([]transactions.SignedTxn, len(g.txs))
 	for i, t := range g.txs {
@@ -827,16 +830,18 @@ func (w *vc20World) staticFlags(g vc20Group, spec transactions.SpecialAddresses)
 		}
 	}
 	var grp transactions.TxGroup
-	for _, t := range g.txs {
+	memberOK = make([]bool, len(g.txs))
+	for i, t := range g.txs {
+		memberOK[i] = true
 		if t.stx.Txn.Group != g.txs[0].stx.Txn.Group {
-			gid = false
+			memberOK[i] = false
 		}
 		if !t.stx.Txn.Group.IsZero() {
 			x := t.stx.Txn
 			x.Group = crypto.Digest{}
 			grp.TxGroupHashes = append(grp.TxGroupHashes, crypto.Digest(x.ID()))
 		} else if len(g.txs) > 1 {
-			gid = false
+			memberOK[i] = false
 		}
 	}
 	if grp.TxGroupHashes != nil && g.txs[0].stx.Txn.Group != crypto.HashObj(grp) {
@@ -1198,9 +1203,9 @@ func (w *vc20World) round(out *vOut, pools map[int]execpool.BacklogPool) bool {
 				}
 			}
 		}
-		wf, gid, feeok := w.staticFlags(g, spec)
+		wf, gid, feeok, memberOK := w.staticFlags(g, spec)
 		gt := []interface{}{vSym("g"), vc20B(wf), vc20B(gid), vc20B(feeok)}
-		for _, x := range g.txs {
+		for xi, x := range g.txs {
 			tx := x.stx.Txn
 			if tx.Type != protocol.PaymentTx || tx.Lease != [32]byte{} || !tx.RekeyTo.IsZero() || !x.stx.AuthAddr.IsZero() {
 				modelled = false
@@ -1223,7 +1228,7 @@ func (w *vc20World) round(out *vOut, pools map[int]execpool.BacklogPool) bool {
 				}
 			}
 			gt = append(gt, vL(vSym("tx"), x.id, w.idx[tx.Sender], w.idx[tx.Receiver], tx.Amount.Raw, cl, tx.Fee.Raw,
-				uint64(tx.FirstValid), uint64(tx.LastValid), vc20B(genok), ln))
+				uint64(tx.FirstValid), uint64(tx.LastValid), vc20B(genok), ln, vc20B(memberOK[xi])))
 		}
 		poolT = append(poolT, gt)
 	}
